@@ -40,7 +40,9 @@ def _strong_tables(rng):
     every triangulation agrees) and a large series drop across it: looking the table up at any other voltage or
     current than (input voltage, output current) shows in the row."""
     sgn = rng.choice([1, 1, -1])
-    V = G.sig(rng.uniform(14.0, 30.0))
+    # half of the supplies lie ABOVE the tables' vi range (the lookup is clamped to the nearest edge, which for rows in
+    # arbitrary order is not the first / last listed row)
+    V = G.sig(rng.uniform(14.0, 30.0)) if rng.random() < 0.5 else G.sig(rng.uniform(45.0, 60.0))
     I = G.sig(rng.uniform(0.4, 1.5))
     vis = [2.0, 12.0, 40.0]
     ios = [0.0, 0.5, 3.0]
